@@ -118,9 +118,12 @@ def strategy(spec, ctx):
     return st.fixed_dictionaries({
         'tree': dsl.tree_strategy(feats, max_leaves=5),
         'tseed': st.integers(0, 2 ** 16),
-        'repl': st.sampled_from(['', '-', '<>', 'é', 'ab', ' ', '$1', '\n']),
+        # plain replacement strings: anything without a backslash - incl. what other template languages would expand ($1, {0}, %s, &),
+        # the pattern's own metacharacters, non-ASCII, and strings longer than the text
+        'repl': st.one_of(st.sampled_from(['', '-', '<>', 'é', 'ab', ' ', '$1', '\n', '{0}', '%s', '&', '$&', '{}', '%', 'g<1>', '(?:x)', '\U0001F600', 'r' * 300]),
+                          st.text(st.sampled_from(list('ab1 -$&%{}()[]<>.*+?^|/"\'é\n\t\u0301')), max_size=10)),
         'big': st.sampled_from([0, 0, 0, 0, 70, 300, 3000]),
-        'count': st.one_of(st.integers(0, 5), st.integers(-3, 2), st.sampled_from([9, 10, 63, 64, 65, 100, 255, 256, 1000])),
+        'count': st.one_of(st.integers(0, 5), st.integers(-3, 2), st.sampled_from([9, 10, 63, 64, 65, 100, 255, 256, 257, 258, 300, 512, 1000])),
         'include_empty': st.booleans(),
         'state': st.sampled_from(pat.STATES),
     })
